@@ -8,7 +8,7 @@
    in any order of the enabled internal rules. *)
 From Coq Require Import List ZArith Bool.
 Import ListNotations.
-From Goat Require Import Model.Client Model.Server Proofs.ServerProofs Proofs.ServerInv Proofs.ServerLive Proofs.ServerTrace Proofs.ServerRoute Proofs.ServerDispatch Proofs.ServerProbe.
+From Goat Require Import Model.Client Model.Server Proofs.ServerProofs Proofs.ServerInv Proofs.ServerLive Proofs.ServerTrace Proofs.ServerRoute Proofs.ServerDispatch Proofs.ServerProbe Proofs.ServerWriter Proofs.ServerResetW.
 Open Scope Z_scope.
 
 (* no reachable state is crashed: the places where the code dereferences the
@@ -93,6 +93,28 @@ Theorem C12_reset : forall s f s',
 Proof. exact srv_reset_step. Qed.
 Print Assumptions C12_reset.
 
+(* reset, over histories. [rst_due l] scans the history l: a stream id is open from the invocation of its handler to
+   its unregistration; the envelopes read meanwhile-not-open that call for a reset ([calls_for_reset]: a stream-method
+   envelope for this server, not itself a reset, with a body or - without body and trailer - undecodable metadata).
+   Always: they are, in order and once each, answered by the resets the writer has taken ([rsts_taken]; only the read
+   loop's resetStream produces reset envelopes), then the one being handed over, then at most one abandoned when the
+   connection ended. *)
+Theorem C12_reset_accounting : forall ls s, lrun init ls = Some s ->
+  exists tail, map rst_reply (rst_due (log s)) = rsts_taken (log s) ++ map rst_reply (rst_pend s) ++ tail
+               /\ (tail = [] \/ (rd_exited s = true /\ exists f, tail = [f])).
+Proof. exact (srv_reset_accounting nworkers). Qed.
+Print Assumptions C12_reset_accounting.
+
+(* (Q) exactly one reset is WRITTEN per such envelope: in every reachable quiescent state in which the transport does
+   not block writes and the connection has not been ended, the resets on the wire are exactly, in order,
+   [rst_reply f] (f's id and method, source and destination swapped) for the envelopes f that called for one;
+   trailers and resets for unknown ids, and anything for open ids, produce none *)
+Theorem C12_reset_written : forall ls s, lrun init ls = Some s ->
+  quiescent s = true -> wblock s = false -> hctx_done s = false ->
+  filter is_rst (written (log s)) = map rst_reply (rst_due (log s)).
+Proof. exact (srv_reset_written nworkers). Qed.
+Print Assumptions C12_reset_written.
+
 (* probe (Q): in every reachable quiescent state in which every handler has returned, the transport does not block
    writes and the connection has not been ended - whatever the peer sent before -, the response built from the
    return of EVERY unary handler (SvReply h f: f = unary_reply of handler h: the request's id and method, source and
@@ -129,5 +151,6 @@ Example C12_never_stalls_ex :
             /\ forallb h_returned (hs s) = true /\ wblock s = false /\ hctx_done s = false
             /\ length (hs s) = 2%nat /\ length (filter (fun e => match e with SvWrite _ => true | _ => false end) (log s)) = 5%nat
             /\ length (filter (fun e => match e with SvReply _ _ => true | _ => false end) (log s)) = 1%nat
-            /\ ureads (log s) = jobs (log s) /\ length (jobs (log s)) = 2%nat.
+            /\ ureads (log s) = jobs (log s) /\ length (jobs (log s)) = 2%nat
+            /\ length (rst_due (log s)) = 1%nat /\ length (filter is_rst (written (log s))) = 1%nat.
 Proof. eexists. vm_compute. repeat split. Qed.
